@@ -34,10 +34,10 @@ def worker_init() -> None:
     sched.install_cycle_monitors()
 
 
-def _check_system(spec: project.Spec, system: Any, res: Optional[core.Res]) -> List[Tuple[str, str]]:
-    """[(problem id, message)]"""
+def _check_system(spec: project.Spec, system: Any, res: Optional[core.Res]) -> List[Tuple[Any, ...]]:
+    """[(problem id, message[, details])]"""
     from pydoctor import model
-    out: List[Tuple[str, str]] = []
+    out: List[Tuple[Any, ...]] = []
 
     def c(name: str, n: int = 1) -> None:
         if res is not None:
@@ -103,7 +103,8 @@ def _check_system(spec: project.Spec, system: Any, res: Optional[core.Res]) -> L
                 if isinstance(u, model.Class):
                     c('base_refs_checked')
                     if not any(b is target for b in u.baseobjects):
-                        out.append((f'consumer-base:{cons["style"]}', f'{u.fullName()} has base written {ref!r}: resolved bases {u.baseobjects!r}, expected {target!r}'))
+                        out.append((f'consumer-base:{cons["style"]}', f'{u.fullName()} has base written {ref!r}: resolved bases {u.baseobjects!r}, expected {target!r}',
+                                    {'consumer': cmod.fullName(), 'reexporter': spec.modname(rmid)}))
             g = cmod.contents.get(f'g{cu}_{i}')
             if g is not None:
                 for name in (ref, old, new):
@@ -205,7 +206,7 @@ def run_case(case: Dict[str, Any]) -> core.Res:
                         repaired = {p[1] for p in _check_system(spec, sysr, None)}
                 except Exception:  # noqa: BLE001
                     repaired = None
-                for pid, msg in problems:
+                for pid, msg, *details in problems:
                     # the known mechanism concerns names bound by a non-star `from definer import X` or reached as
                     # `definer.X` after `import definer`; star imports and the registry itself are not eligible
                     eligible = pid.split(':')[-1] in ('from-D', 'import-D', 'both') or pid.startswith('xref:')
@@ -219,6 +220,15 @@ def run_case(case: Dict[str, Any]) -> core.Res:
                         rex = [spec.modname(v[0]) for v in spec.moved.values()]
                         if cname in log and any(x in log and log.index(cname) < log.index(x) for x in rex):
                             eligible = True
+                    if pid.startswith('consumer-base:') and pid.split(':')[-1] in ('from-D', 'import-D') and details:
+                        # a base written with a name imported from the defining module is bound to the object when the class statement
+                        # is visited; it can only have gone stale if the move happened before that, i.e. if the re-exporter was
+                        # entered before this consumer (which imports nothing but the defining module) was
+                        log = system.__dict__.get('_vf_sched_log', [])
+                        cn, rx = details[0]['consumer'], details[0]['reexporter']
+                        if cn in log and rx in log and log.index(cn) < log.index(rx):
+                            eligible = False
+                            res.c('consumer_bases_bound_before_the_move')
                     if repaired is not None and msg not in repaired and eligible:
                         res.v('C07:stale-import-after-move', f'{label} order {od}: {msg} (disappears when names imported from the old location are followed)'[:900], order=od, **w)
                     else:
